@@ -38,6 +38,7 @@ type c15Mon struct {
 	serial  uint64
 	issued  map[uint64]pair
 	sync    chan struct{}
+	tokens  chan struct{} // slow-consumer cases: a delivery is admitted per token (closed = all)
 }
 
 func (m *c15Mon) NotifySessReport(sr report.SessReport) {
@@ -47,6 +48,9 @@ func (m *c15Mon) NotifySessReport(sr report.SessReport) {
 		default:
 		}
 		return
+	}
+	if m.tokens != nil {
+		<-m.tokens
 	}
 	m.mu.Lock()
 	m.reports = append(m.reports, sr)
@@ -523,6 +527,116 @@ func c15Driver(res *vh.Result, ci int, rng *vh.Rng, count int) {
 	}
 }
 
+// c15SlowConsumer: the consumer of the notifications (the PFCP loop in the product) is busy while further ticks
+// are served. Several sessions share one period; deliveries are admitted one token at a time, a further tick is
+// injected after each token, so that notifications of a later tick are queued while an earlier batch is only
+// partly delivered. At the end every issued report must have been delivered exactly once, under its session.
+func c15SlowConsumer(res *vh.Result, ci int, rng *vh.Rng) {
+	wg := &sync.WaitGroup{}
+	srv, err := perio.OpenServer(wg)
+	if err != nil {
+		res.Inconc(err.Error())
+		return
+	}
+	mon := &c15Mon{issued: map[uint64]pair{}, sync: make(chan struct{}, 16), tokens: make(chan struct{}, 64)}
+	srv.Handle(mon, mon.query)
+	srv.AddPeriodReportTimer(vh.SentSEID, vh.SentURR, vh.SentPeriod)
+	nsess, nurr, nticks := rng.Range(2, 7), rng.Range(1, 3), rng.Range(2, 8)
+	per := time.Duration(1+rng.Intn(3)) * time.Hour
+	viol := func(sig, desc string) {
+		res.Violate(ci, "C15:"+sig, desc, map[string]interface{}{"level": "slow-consumer", "sessions": nsess, "urrs": nurr, "ticks": nticks})
+	}
+	for se := 1; se <= nsess; se++ {
+		for u := 1; u <= nurr; u++ {
+			srv.AddPeriodReportTimer(uint64(se), uint32(u), per)
+		}
+	}
+	nq := func() int {
+		mon.mu.Lock()
+		defer mon.mu.Unlock()
+		return len(mon.queries)
+	}
+	ok := true
+	for t := 1; t <= nticks && ok; t++ {
+		srv.VerifInjectTick(per)
+		deadline := time.Now().Add(20 * time.Second)
+		for nq() < t {
+			if time.Now().After(deadline) {
+				ok = false
+				break
+			}
+			time.Sleep(50 * time.Microsecond)
+		}
+		// admit a few deliveries, then let the next tick's notifications arrive behind the rest
+		for k := rng.Intn(3); k >= 0; k-- {
+			select {
+			case mon.tokens <- struct{}{}:
+			default:
+			}
+		}
+		if rng.Bool() {
+			time.Sleep(time.Duration(rng.Intn(300)) * time.Microsecond)
+		}
+	}
+	close(mon.tokens)
+	if ok {
+		srv.VerifInjectTick(vh.SentPeriod)
+		select {
+		case <-mon.sync:
+		case <-time.After(20 * time.Second):
+			ok = false
+		}
+	}
+	if !ok {
+		res.Inconc("slow-consumer barrier timed out")
+	} else {
+		mon.mu.Lock()
+		seen := map[uint64]int{}
+		for _, sr := range mon.reports {
+			for _, r := range sr.Reports {
+				u, isU := r.(report.USAReport)
+				if !isU {
+					viol("report-type", "non-usage report delivered")
+					continue
+				}
+				serial := (u.VolumMeasure.TotalVolume - 1) / 1000
+				orig, known := mon.issued[serial]
+				if !known || orig.seid != sr.SEID || orig.urr != u.URRID {
+					viol("report-misattributed", fmt.Sprintf("report serial %d (URR %d) delivered under session %#x, measured for %v", serial, u.URRID, sr.SEID, orig))
+				}
+				seen[serial]++
+			}
+		}
+		lost, dup := 0, 0
+		for sn := range mon.issued {
+			switch {
+			case seen[sn] == 0:
+				lost++
+			case seen[sn] > 1:
+				dup++
+			}
+		}
+		nissued := len(mon.issued)
+		mon.mu.Unlock()
+		res.Count("slow_consumer_reports", int64(nissued))
+		if nissued != nticks*nsess*nurr {
+			viol("tick-query-set", fmt.Sprintf("%d ticks over %d sessions x %d URRs queried %d URRs in all", nticks, nsess, nurr, nissued))
+		}
+		if lost > 0 || dup > 0 {
+			viol("report-count", fmt.Sprintf("busy consumer: of %d periodic reports %d were never delivered and %d more than once", nissued, lost, dup))
+		}
+	}
+	srv.Close()
+	done := make(chan struct{})
+	go func() { wg.Wait(); close(done) }()
+	select {
+	case <-done:
+	case <-time.After(20 * time.Second):
+		viol("close-hangs", "perio server did not terminate within 20 s of Close")
+	}
+	res.Eval(vh.Sig(fmt.Sprintf("slow %d %d %d %v", nsess, nurr, nticks, per)))
+}
+
 // c15RealTicker: bounded-progress check with real tickers. A 1 s and a 2 s period are registered; within ten
 // periods each must have been queried at least twice with exactly its registered set; after removal (and a
 // barrier) no further query may name the removed URR.
@@ -614,7 +728,12 @@ func runC15(res *vh.Result) {
 	counts := []int{1, 55, 56, 57, 112, 113, 1000, 2, 111, 168, 169}
 	ndrv := vh.Tiered(len(counts)+60, len(counts)+6000)
 	nreal := vh.Tiered(8, 96)
-	res.Cases(ncomp+ndrv+nreal, func(i int, rng *vh.Rng) {
+	nslow := vh.Tiered(60, 4000)
+	res.Cases(ncomp+ndrv+nreal+nslow, func(i int, rng *vh.Rng) {
+		if i >= ncomp+ndrv+nreal {
+			c15SlowConsumer(res, i, rng)
+			return
+		}
 		if i >= ncomp+ndrv {
 			c15RealTicker(res, i, rng)
 			return
